@@ -7,7 +7,7 @@ logdir, prefix = Path(sys.argv[1]), sys.argv[2]
 logdir2, prefix2 = (Path(sys.argv[3]), sys.argv[4]) if len(sys.argv) > 4 else (None, None)  # round 2: ids ending in 2, logs named after the base id, rows prefixed r8
 S = Path('/verif/seeded_harmless')
 rows = []
-for d in sorted(S.glob('C*[ab]')):
+for d in sorted(S.glob('C*[ab]*')):
     sid = d.name
     log = logdir / f'{prefix}{sid}.log'
     tag = sid
